@@ -1612,6 +1612,17 @@ def o_order(case):
     if text_tree(a.to_json()) != text_tree(b2.to_json()):
         return 'R12:order-dependent:json-text', 'JSON differs beyond the order of keys / set elements'
     tpl = ss.get('template') or 'x'
+    # a template field whose value contains a SET (at any depth) is rendered in the set's iteration order, which
+    # Python does not define (it depends on the hash seed of the process for strings): such fields are outside the
+    # supported set of file-name templates (CLAIM note), so the name is compared only when no field is of that kind
+    import string
+
+    def has_set(v):
+        return isinstance(v, list) and len(v) == 2 and (v[0] == 'set' or (v[0] == 'list' and any(has_set(x) for x in v[1])))
+    fields = {f for _, f, _, _ in string.Formatter().parse(tpl) if f}
+    vals = {n: v for n, v in ss['params']['params']}
+    if any(has_set(vals[f]) for f in fields if f in vals):
+        return None
     if a.get_filename_with_replaced_params(tpl) != b2.get_filename_with_replaced_params(tpl):
         return 'R12:order-dependent:filename', 'file name depends on the insertion order'
     return None
